@@ -18,6 +18,7 @@ mod fam_outline;
 mod fam_norm;
 mod zoo;
 mod fam_trace;
+mod fam_report;
 
 use std::{collections::BTreeMap, collections::HashSet, fs, io::Write as _, path::Path};
 
@@ -40,6 +41,7 @@ fn families() -> Vec<(&'static str, fn(&mut Rng, usize) -> Case)> {
         ("zoo.reg", zoo::gen_reg),
         ("zoo.dispatch", zoo::gen_dispatch),
         ("trace.run", fam_trace::gen_trace),
+        ("report.run", fam_report::gen_report),
     ]
 }
 
@@ -47,6 +49,10 @@ fn main() {
     let args: Vec<String> = std::env::args().collect();
     if args.len() == 3 && args[1] == "--tracing-child" {
         fam_trace::child(args[2].parse().expect("seed"));
+        return;
+    }
+    if args.len() == 3 && args[1] == "--report-dump" {
+        fam_report::dump(args[2].parse().expect("seed"));
         return;
     }
     if args.len() < 5 {
